@@ -30,9 +30,14 @@ let get = function
 
 (* returns the output line and whether some op lost a decoder (Reader.v: read_loses_decoder,
    check_loses_decoder), i.e. whether LeakSanitizer should complain about the C *)
-let run_rdr = function
+let rec int_of_nat = function O -> 0 | S k -> 1 + int_of_nat k
+
+(* memflag: run the ownership ledger (coq/ReaderMem.v) in lock step and print its predicted
+   live block count after every op (command rdrmem).  There the 4th field is the C driver's
+   failing-allocation index; the model's junk is 0. *)
+let run_rdr memflag = function
   | [kind; policy; junk; hx; ops] ->
-    let junk = n_of_int (int_of_string junk) in
+    let junk = if memflag then N0 else n_of_int (int_of_string junk) in
     let src = mk_source (D_hdr.kind_of kind) (bytes_of_hex hx) in
     let r = ref (lha_reader_new (lha_input_stream_new src)) in
     (match policy_of policy with Some p -> r := lha_reader_set_dir_policy !r p | None -> ());
@@ -40,11 +45,15 @@ let run_rdr = function
     let b = Buffer.create 1024 in
     let ops = if ops = "-" then [] else String.split_on_char ',' ops in
     let lost = ref false in
+    let m = ref (mem_new (policy = "plain")) in
+    let lb () = if memflag then Buffer.add_string b (Printf.sprintf " lb=%d" (int_of_nat (live_blocks !m))) in
     let line = (try
        List.iter (fun op ->
            let n = String.length op in
            (if op = "n" then begin
-               let (h, r') = get (lha_reader_next_file mktime_utc !r) in
+               let (h, r') =
+                 if memflag then (let (h, (r', m')) = get (ls_next mktime_utc (!r, !m)) in m := m'; (h, r'))
+                 else get (lha_reader_next_file mktime_utc !r) in
                r := r';
                match h with
                | None -> Buffer.add_string b "n:NULL"
@@ -55,7 +64,9 @@ let run_rdr = function
             else if n >= 1 && op.[0] = 'r' then begin
               let k = int_of_string (String.sub op 1 (n - 1)) in
               if read_loses_decoder !r then lost := true;
-              let ((out, evs), r') = get (lha_reader_read junk !r (n_of_int k)) in
+              let ((out, evs), r') =
+                if memflag then (let ((out, evs), (r', m')) = get (ls_read junk (!r, !m) (n_of_int k)) in m := m'; ((out, evs), r'))
+                else get (lha_reader_read junk !r (n_of_int k)) in
               r := r';
               let h = ref 0xcbf29ce484222325L in
               List.iter (fun x -> fnv_byte h (int_of_n x)) out;
@@ -65,7 +76,9 @@ let run_rdr = function
             else if op = "c" || op = "cm" then begin
               let mon = op = "cm" in
               if check_loses_decoder !r then lost := true;
-              let ((res, evs), r') = get (lha_reader_check junk !r mon) in
+              let ((res, evs), r') =
+                if memflag then (let ((res, evs), (r', m')) = get (ls_check junk (!r, !m) mon) in m := m'; ((res, evs), r'))
+                else get (lha_reader_check junk !r mon) in
               r := r';
               Buffer.add_string b (Printf.sprintf "%s=%d" op (if res then 1 else 0));
               Buffer.add_string b (ev_string mon evs)
@@ -74,14 +87,25 @@ let run_rdr = function
               let mon = op = "xm" in
               let fname = if n >= 2 && op.[1] = 'f' then Some (bytes_of_hex (String.sub op 2 (n - 2))) else None in
               if check_loses_decoder !r then lost := true;
-              let (((res, evs), r'), f') = get (lha_reader_extract junk !r !f fname mon) in
+              let (((res, evs), r'), f') =
+                if memflag then (let (((res, evs), (r', m')), f') = get (ls_extract junk (!r, !m) !f fname mon) in
+                                 m := m'; (((res, evs), r'), f'))
+                else get (lha_reader_extract junk !r !f fname mon) in
               r := r'; f := f';
               Buffer.add_string b (Printf.sprintf "%s=%d" (if fname <> None then "xf" else op) (if res then 1 else 0));
               Buffer.add_string b (ev_string mon evs)
             end
             else Buffer.add_string b "BADOP");
+           lb ();
            Buffer.add_string b " ; ") ops;
        Buffer.add_string b "E";
+       if memflag then begin
+         (* lha_reader_free, then lha_input_stream_free *)
+         m := get (m_free_reader !m);
+         lb ();
+         m := m_free_stream !m;
+         Buffer.add_string b (Printf.sprintf " final=%d files=%d" (int_of_nat (live_blocks !m)) (int_of_nat (!m).m_files))
+       end;
        Buffer.add_string b (D_hdr.tail_counts (reader_br !r).br_stream.is_src);
        Buffer.add_string b " |";
        Buffer.add_string b (D_fs.dump_string !f);
@@ -90,11 +114,12 @@ let run_rdr = function
     (line, !lost)
   | _ -> ("ERR args", false)
 
-let do_rdr args = fst (run_rdr args)
+let do_rdr args = fst (run_rdr false args)
+let do_rdrmem args = fst (run_rdr true args)
 
 (* rdrleak <same arguments>: only the model's prediction of LeakSanitizer's verdict *)
 let do_rdrleak args =
-  let (line, lost) = run_rdr args in
+  let (line, lost) = run_rdr false args in
   let n = String.length line in
   let ends_with suf = let k = String.length suf in n >= k && String.sub line (n - k) k = suf in
   (* a fault ends the line: "... FAULT <site>" *)
@@ -102,4 +127,4 @@ let do_rdrleak args =
   let faulted = ends_with "OUTOFFUEL" || has_fault (n - 6) in
   if faulted then "FAULT" else Printf.sprintf "LEAK=%d" (if lost then 1 else 0)
 
-let () = add "rdr" do_rdr; add "rdrleak" do_rdrleak
+let () = add "rdr" do_rdr; add "rdrleak" do_rdrleak; add "rdrmem" do_rdrmem
